@@ -70,7 +70,9 @@ def run(tier):
         files = lib.pmap(tz.record_corpus_file, list(t["corpus"]), chunksize=1)
         rec_tor = [c for f in files for c in f["cases"]]
         rec_af = [tz.aform_case(f) for f in files if f["file"] in t["aform"]]
-        allc = rec_lat + rec_phi + rec_tor + rec_af
+        stem_files = tz.STEM_FILES_QUICK if tier == "quick" else tz.STEM_FILES_THOROUGH
+        rec_stem = [c for cs in lib.pmap(tz.record_stem_file, list(stem_files), chunksize=1) for c in cs]
+        allc = rec_lat + rec_phi + rec_tor + rec_af + rec_stem
         mark("record_phi_corpus")
         res = lib.trace_validate("Trace_TorsionLattice", "Trace_TorsionLattice_C18.cfg", allc, sc, xmx="3g",
                                  chunks=t["chunks"])
@@ -106,6 +108,8 @@ def run(tier):
         cov["random_lattice_tuples_radius2"] = len(rnd)
         cov["constructed_phi_cases"] = len(rec_phi)
         cov["corpus_torsions"] = len(rec_tor)
+        cov["inter_stem_torsions"] = {"stem_pairs": len(rec_stem),
+                                      "types": {t: sum(1 for c in rec_stem if c["fwd"]["type"] == t) for t in tz.STEM_TYPES}}
         cov["corpus_files"] = {f["file"]: {"torsions": len(f["cases"]), "aform_rows_t1": len(f["rows1"]),
                                            "aform_rows_v2": len(f["rows2"]), "residues_skipped_ambiguous_key": f["skipped"]}
                                for f in files}
